@@ -324,7 +324,7 @@ Section EndToEnd.
       s_data (o_final o) = prefill ++ bs /\
       Forall (fun r => st_of r = IoOk tt) (o_calls o) /\
       (exists rf, o_fin o = Some rf /\ st_of rf = IoOk tt) /\
-      sink_flushed (o_final o) /\
+      sink_committed (o_final o) /\
       map bw_of (o_calls o) = counts_of ty rows cols ops /\
       spec_parse bs = Some p /\ p_version p = 3 /\ p_ty p = ty /\
       p_len p = len (spec_content None ops []) /\ p_content p = spec_content None ops [] /\
@@ -335,7 +335,8 @@ Section EndToEnd.
     destruct Hs as (Hc & Hf & Hbs & Hcnt & Hrest).
     pose proof (sink_session_good real_update real_masked _ _ real_law oracle prefill calls fin Hc Hf Hben)
       as (A & _ & (rf & C1 & C2 & _) & D & E & F).
-    cbv zeta. unfold real_sink_session. rewrite D, <- Hbs, F, Hcnt. repeat split; eauto; apply Hrest.
+    cbv zeta. unfold real_sink_session. rewrite D, <- Hbs, F, Hcnt.
+    split; [reflexivity|]. split; [exact A|]. split; [eauto|]. split; [exact E|]. split; [reflexivity|exact Hrest].
   Qed.
 
   Theorem end_to_end_buf cap oracle prefill : Forall benign oracle ->
@@ -346,14 +347,16 @@ Section EndToEnd.
       s_data (b_inner (o_final o)) = prefill ++ bs /\ b_buf (o_final o) = [] /\
       Forall (fun r => st_of r = IoOk tt) (o_calls o) /\
       (exists rf, o_fin o = Some rf /\ st_of rf = IoOk tt) /\
+      sink_committed (b_inner (o_final o)) /\
       map bw_of (o_calls o) = counts_of ty rows cols ops.
   Proof.
     intros Hben. destruct session_facts as (bs & p & H1 & Hs). exists bs. split; [exact H1|].
     destruct (session_of ty rows cols ops) as [calls fin].
     destruct Hs as (Hc & Hf & Hbs & Hcnt & _).
     pose proof (buf_session_good real_update real_masked _ _ real_law cap oracle prefill calls fin Hc Hf Hben)
-      as (A & _ & (rf & C1 & C2 & _) & D & E & _ & F).
-    cbv zeta. unfold real_buf_session. rewrite D, <- Hbs, F, Hcnt. repeat split; eauto.
+      as (A & _ & (rf & C1 & C2 & _) & D & E & G & F).
+    cbv zeta. unfold real_buf_session. rewrite D, <- Hbs, F, Hcnt.
+    split; [reflexivity|]. split; [exact E|]. split; [exact A|]. split; [eauto|]. split; [exact G|reflexivity].
   Qed.
 End EndToEnd.
 
